@@ -7,17 +7,19 @@ sys.path.insert(0, "/verif")
 from sa import props
 
 SEEDED = "/verif/seeded"
+REPO = os.environ.get("TABLE_REPO", "/repo")   # a scratch worktree of /repo's HEAD may be given instead of /repo itself
+ENV = dict(os.environ, VERIF_REPO=REPO)
 ids = sys.argv[1:] or sorted(os.listdir(SEEDED))
 pids = props.ids()
 
 
 def run(pid):
-    r = subprocess.run(["/verif/check", pid, "--no-evidence"], capture_output=True, text=True)
+    r = subprocess.run(["/verif/check", pid, "--no-evidence"], capture_output=True, text=True, env=ENV)
     rules = sorted(set(re.findall(r"^  \S+: \[([A-Za-z\-]+)\]", r.stdout, flags=re.M)))
     return pid, r.returncode, rules
 
 
-assert subprocess.run(["git", "-C", "/repo", "diff", "--quiet"]).returncode == 0, "/repo has local modifications"
+assert subprocess.run(["git", "-C", REPO, "diff", "--quiet"]).returncode == 0, "/repo has local modifications"
 with ThreadPoolExecutor(16) as ex:
     base = {pid: (rc, rules) for pid, rc, rules in ex.map(run, pids)}
 assert all(rc == 0 for rc, _ in base.values()), f"checks fail on the unchanged tree: {[p for p, (rc, _) in base.items() if rc]}"
@@ -28,11 +30,11 @@ for sid in ids:
     if not os.path.exists(patch):
         continue
     try:
-        subprocess.run(["git", "-C", "/repo", "apply", patch], check=True)
+        subprocess.run(["git", "-C", REPO, "apply", patch], check=True)
         with ThreadPoolExecutor(16) as ex:
             res = list(ex.map(run, pids))
     finally:
-        subprocess.run(["git", "-C", "/repo", "checkout", "--", "."], check=True)
+        subprocess.run(["git", "-C", REPO, "checkout", "--", "."], check=True)
     hits = {pid: rules for pid, rc, rules in res if rc == 1}
     broken = [pid for pid, rc, _ in res if rc not in (0, 1)]
     meta = json.load(open(os.path.join(d, "meta.json")))
